@@ -227,6 +227,7 @@ def todyn_facts(features, rrtk_dep=None):
     return _todyn_cache[key]
 
 
+NOFEAT_DEP = 'rrtk = { path = "/repo", default-features = false }'
 NOSTD_DEP = 'rrtk = { path = "/repo", default-features = false, features = ["alloc", "libm"] }'
 
 
@@ -248,151 +249,160 @@ def to_dyn_expansion(chk, prog, nostd_prog=None):
     builds = [((), None, "caller-features=none"), (("alloc", "std"), None, "caller-features=alloc,std")]
     if nostd_prog is not None:
         builds.append(((), NOSTD_DEP, "rrtk-without-std(alloc,libm)"))
+        builds.append(((), NOFEAT_DEP, "rrtk-without-features"))
     for feats, dep, tag in builds:
         key = "D:to_dyn-expansion:" + tag
-        if dep:
+        if dep == NOSTD_DEP:
             variants = variants_of(nostd_prog, "ReferenceUnsafe")
+        elif dep == NOFEAT_DEP:
+            variants = variants_of(load_config("K5"), "ReferenceUnsafe")
         listed = [v for v in all_listed if v in variants]
         chk.obligation(key, "to_dyn! expansion in a downstream crate (%s): listed variants %s" % (tag, listed))
         facts, err = todyn_facts(feats, dep)
         if facts is None:
             chk.violation("C17.D", key + ":build", "the downstream witness using to_dyn! does not compile (%s): %s" % (tag, err[-600:]))
             continue
-        fn = [f for f in facts["fns"] if f["name"] == "conv" and "body" in f]
-        if len(fn) != 1:
-            raise AnchorMissing("witness conv")
-        body = fn[0]["body"]
-        blocks = body["blocks"]
-        defs = W.local_defs(body)
-        # aliases of the scrutinee: the result of into_inner and whole-local moves of it
-        scrut = set()
-        for bb in blocks:
-            t = bb["term"]
-            if t["k"] == "call" and t["func"].get("ck") == "fn" and t["func"]["fn"]["name"] == "into_inner" and not t["dest"]["p"]:
-                scrut.add(t["dest"]["l"])
-        if not scrut:
-            chk.violation("C17.D", key + ":shape", "expansion does not call Reference::into_inner")
-            continue
-        changed = True
-        discr_of = {}
-        while changed:
-            changed = False
+        fns_ = {f["name"]: f for f in facts["fns"] if f["name"] in ("conv", "conv_again") and "body" in f}
+        if len(fns_) != 2:
+            raise AnchorMissing("witness conv / conv_again")
+        key0, tag0 = key, tag
+        for wname in ("conv", "conv_again"):
+            body = fns_[wname]["body"]
+            if wname != "conv":
+                tag = tag0 + ",source-already-dyn"
+                key = key0 + ":from-dyn"
+                chk.obligation(key, "to_dyn! on a Reference that is already a trait object (%s)" % tag0)
+            blocks = body["blocks"]
+            defs = W.local_defs(body)
+            # aliases of the scrutinee: the result of into_inner and whole-local moves of it
+            scrut = set()
             for bb in blocks:
-                for st in bb["stmts"]:
-                    if st["k"] != "assign" or st["place"]["p"]:
-                        continue
-                    rv = st["rv"]
-                    if rv["k"] == "use" and rv["op"]["k"] in ("move", "copy") and not rv["op"]["place"]["p"] and rv["op"]["place"]["l"] in scrut and st["place"]["l"] not in scrut:
-                        scrut.add(st["place"]["l"])
-                        changed = True
-                    if rv["k"] == "discr" and not rv["place"]["p"] and rv["place"]["l"] in scrut:
-                        discr_of[st["place"]["l"]] = rv["place"]["l"]
-        full = frozenset(variants)
-
-        def classify(i):
-            t = blocks[i]["term"]
-            if t["k"] == "call" and t["func"].get("ck") == "fn":
-                nm = t["func"]["fn"]["name"]
-                pretty = t["func"]["fn"]["pretty"]
-                if nm in CTOR_OF and "Reference" in pretty:
-                    return ("ctor", CTOR_OF[nm])
-                if "panic" in pretty:
-                    return ("panic", pretty)
-            if t["k"] == "unreachable":
-                return ("unreachable", None)
-            return None
-
-        def succs(i, vs):
-            """successor blocks with the variant set narrowed by discriminant switches on the scrutinee."""
-            t = blocks[i]["term"]
-            k = t["k"]
-            if k == "goto":
-                return [(t["t"], vs)]
-            if k == "switch":
-                d = t["discr"]
-                if d["k"] in ("move", "copy") and not d["place"]["p"] and d["place"]["l"] in discr_of:
-                    out, taken = [], set()
-                    for val, tgt in t["targets"]:
-                        name = variants[val] if 0 <= val < len(variants) else None
-                        taken.add(name)
-                        if name in vs:
-                            out.append((tgt, frozenset([name])))
-                    rest = frozenset(v for v in vs if v not in taken)
-                    if rest and t.get("otherwise") is not None:
-                        out.append((t["otherwise"], rest))
-                    return out
-                return [(tgt, vs) for _, tgt in t["targets"]] + ([(t["otherwise"], vs)] if t.get("otherwise") is not None else [])
-            if k in ("call", "drop", "assert"):
-                nxt = t.get("t")
-                return [(nxt, vs)] if nxt is not None else []
-            return []
-
-        def reach(stop_for=None):
-            """block -> variants that can enter it; blocks that are constructor calls for variant `stop_for` are not passed through."""
-            inn = {0: full}
-            work = [0]
-            while work:
-                i = work.pop()
-                c = classify(i)
-                if stop_for is not None and c == ("ctor", stop_for):
-                    continue
-                for j, vs in succs(i, inn[i]):
-                    if blocks[j]["cleanup"]:
-                        continue
-                    new = inn.get(j, frozenset()) | vs
-                    if new != inn.get(j):
-                        inn[j] = new
-                        work.append(j)
-            return inn
-        inn = reach()
-        ok = True
-        table = {}
-        for i, vs in sorted(inn.items()):
-            c = classify(i)
-            if c is None:
+                t = bb["term"]
+                if t["k"] == "call" and t["func"].get("ck") == "fn" and t["func"]["fn"]["name"] == "into_inner" and not t["dest"]["p"]:
+                    scrut.add(t["dest"]["l"])
+            if not scrut:
+                chk.violation("C17.D", key + ":shape", "expansion does not call Reference::into_inner")
                 continue
-            t = blocks[i]["term"]
-            if c[0] == "ctor":
-                chk.evaluated(1, nontrivial=(key, "ctor", c[1], tuple(sorted(vs))))
-                if vs - {c[1]}:
-                    chk.violation("C17.D", "%s:wrong-ctor:%s" % (key, c[1]), "to_dyn! expansion (%s): constructor %s is reached by variant(s) %s: the result does not denote the same kind of reference"
-                                  % (tag, t["func"]["fn"]["name"], sorted(vs - {c[1]})), site=loc(t.get("span")))
+            changed = True
+            discr_of = {}
+            while changed:
+                changed = False
+                for bb in blocks:
+                    for st in bb["stmts"]:
+                        if st["k"] != "assign" or st["place"]["p"]:
+                            continue
+                        rv = st["rv"]
+                        if rv["k"] == "use" and rv["op"]["k"] in ("move", "copy") and not rv["op"]["place"]["p"] and rv["op"]["place"]["l"] in scrut and st["place"]["l"] not in scrut:
+                            scrut.add(st["place"]["l"])
+                            changed = True
+                        if rv["k"] == "discr" and not rv["place"]["p"] and rv["place"]["l"] in scrut:
+                            discr_of[st["place"]["l"]] = rv["place"]["l"]
+            full = frozenset(variants)
+
+            def classify(i):
+                t = blocks[i]["term"]
+                if t["k"] == "call" and t["func"].get("ck") == "fn":
+                    nm = t["func"]["fn"]["name"]
+                    pretty = t["func"]["fn"]["pretty"]
+                    if nm in CTOR_OF and "Reference" in pretty:
+                        return ("ctor", CTOR_OF[nm])
+                    if "panic" in pretty:
+                        return ("panic", pretty)
+                if t["k"] == "unreachable":
+                    return ("unreachable", None)
+                return None
+
+            def succs(i, vs):
+                """successor blocks with the variant set narrowed by discriminant switches on the scrutinee."""
+                t = blocks[i]["term"]
+                k = t["k"]
+                if k == "goto":
+                    return [(t["t"], vs)]
+                if k == "switch":
+                    d = t["discr"]
+                    if d["k"] in ("move", "copy") and not d["place"]["p"] and d["place"]["l"] in discr_of:
+                        out, taken = [], set()
+                        for val, tgt in t["targets"]:
+                            name = variants[val] if 0 <= val < len(variants) else None
+                            taken.add(name)
+                            if name in vs:
+                                out.append((tgt, frozenset([name])))
+                        rest = frozenset(v for v in vs if v not in taken)
+                        if rest and t.get("otherwise") is not None:
+                            out.append((t["otherwise"], rest))
+                        return out
+                    return [(tgt, vs) for _, tgt in t["targets"]] + ([(t["otherwise"], vs)] if t.get("otherwise") is not None else [])
+                if k in ("call", "drop", "assert"):
+                    nxt = t.get("t")
+                    return [(nxt, vs)] if nxt is not None else []
+                return []
+
+            def reach(stop_for=None):
+                """block -> variants that can enter it; blocks that are constructor calls for variant `stop_for` are not passed through."""
+                inn = {0: full}
+                work = [0]
+                while work:
+                    i = work.pop()
+                    c = classify(i)
+                    if stop_for is not None and c == ("ctor", stop_for):
+                        continue
+                    for j, vs in succs(i, inn[i]):
+                        if blocks[j]["cleanup"]:
+                            continue
+                        new = inn.get(j, frozenset()) | vs
+                        if new != inn.get(j):
+                            inn[j] = new
+                            work.append(j)
+                return inn
+            inn = reach()
+            ok = True
+            table = {}
+            for i, vs in sorted(inn.items()):
+                c = classify(i)
+                if c is None:
+                    continue
+                t = blocks[i]["term"]
+                if c[0] == "ctor":
+                    chk.evaluated(1, nontrivial=(key, "ctor", c[1], tuple(sorted(vs))))
+                    if vs - {c[1]}:
+                        chk.violation("C17.D", "%s:wrong-ctor:%s" % (key, c[1]), "to_dyn! expansion (%s): constructor %s is reached by variant(s) %s: the result does not denote the same kind of reference"
+                                      % (tag, t["func"]["fn"]["name"], sorted(vs - {c[1]})), site=loc(t.get("span")))
+                        ok = False
+                    arg = t["args"][0] if t["args"] else None
+                    good = False
+                    if arg and arg["k"] in ("move", "copy"):
+                        org = W.place_origin(body, arg["place"], defs, 0, set()) if arg["place"]["p"] else W.origins(body, arg["place"]["l"], defs)
+                        good = len(org) == 1 and all(o[0] == "load" and o[1] == ("ReferenceUnsafe", c[1], 0) for o in org)
+                    if not good:
+                        chk.violation("C17.D", "%s:payload:%s" % (key, c[1]), "to_dyn! expansion (%s): the argument of %s is not the %s payload of the converted Reference (through moves and pointer casts only), so the result need not alias the same object"
+                                      % (tag, t["func"]["fn"]["name"], c[1]), site=loc(t.get("span")))
+                        ok = False
+                    for v in vs:
+                        table.setdefault(v, set()).add("ctor:" + c[1])
+                elif c[0] in ("panic", "unreachable"):
+                    chk.evaluated(1, nontrivial=(key, c[0], tuple(sorted(vs))))
+                    hit = sorted(set(vs) & set(listed))
+                    for v in vs:
+                        table.setdefault(v, set()).add("panic")
+                    if hit:
+                        chk.violation("C17.D", "%s:panics:%s" % (key, ",".join(hit)), "to_dyn! expansion (%s): variant(s) %s listed by the macro reach %s instead of being converted"
+                                      % (tag, hit, c[1] or "unreachable"), site=loc(t.get("span")))
+                        ok = False
+            rets = [i for i, bb in enumerate(blocks) if bb["term"]["k"] == "return" and not bb["cleanup"]]
+            for v in listed:
+                r2 = reach(stop_for=v)
+                chk.evaluated(1, nontrivial=(key, "must-pass", v))
+                if any(v in r2.get(i, ()) for i in rets):
+                    chk.violation("C17.D", "%s:bypass:%s" % (key, v), "to_dyn! expansion (%s): variant %s can reach the return without passing through its constructor" % (tag, v))
                     ok = False
-                arg = t["args"][0] if t["args"] else None
-                good = False
-                if arg and arg["k"] in ("move", "copy"):
-                    org = W.place_origin(body, arg["place"], defs, 0, set()) if arg["place"]["p"] else W.origins(body, arg["place"]["l"], defs)
-                    good = len(org) == 1 and all(o[0] == "load" and o[1] == ("ReferenceUnsafe", c[1], 0) for o in org)
-                if not good:
-                    chk.violation("C17.D", "%s:payload:%s" % (key, c[1]), "to_dyn! expansion (%s): the argument of %s is not the %s payload of the converted Reference (through moves and pointer casts only), so the result need not alias the same object"
-                                  % (tag, t["func"]["fn"]["name"], c[1]), site=loc(t.get("span")))
+                if "ctor:" + v not in table.get(v, ()):
+                    chk.violation("C17.D", "%s:unconverted:%s" % (key, v), "to_dyn! expansion (%s): no constructor call is reached by listed variant %s" % (tag, v))
                     ok = False
-                for v in vs:
-                    table.setdefault(v, set()).add("ctor:" + c[1])
-            elif c[0] in ("panic", "unreachable"):
-                chk.evaluated(1, nontrivial=(key, c[0], tuple(sorted(vs))))
-                hit = sorted(set(vs) & set(listed))
-                for v in vs:
-                    table.setdefault(v, set()).add("panic")
-                if hit:
-                    chk.violation("C17.D", "%s:panics:%s" % (key, ",".join(hit)), "to_dyn! expansion (%s): variant(s) %s listed by the macro reach %s instead of being converted"
-                                  % (tag, hit, c[1] or "unreachable"), site=loc(t.get("span")))
-                    ok = False
-        rets = [i for i, bb in enumerate(blocks) if bb["term"]["k"] == "return" and not bb["cleanup"]]
-        for v in listed:
-            r2 = reach(stop_for=v)
-            chk.evaluated(1, nontrivial=(key, "must-pass", v))
-            if any(v in r2.get(i, ()) for i in rets):
-                chk.violation("C17.D", "%s:bypass:%s" % (key, v), "to_dyn! expansion (%s): variant %s can reach the return without passing through its constructor" % (tag, v))
-                ok = False
-            if "ctor:" + v not in table.get(v, ()):
-                chk.violation("C17.D", "%s:unconverted:%s" % (key, v), "to_dyn! expansion (%s): no constructor call is reached by listed variant %s" % (tag, v))
-                ok = False
-        if not dep:
-            tables[tag] = {v: sorted(x) for v, x in table.items()}
-        chk.sample({"to_dyn": tag, "table": {v: sorted(x) for v, x in table.items()}}, cap=30)
-        if ok:
-            chk.discharge(key)
+            if not dep and wname == "conv":
+                tables[tag] = {v: sorted(x) for v, x in table.items()}
+            chk.sample({"to_dyn": tag, "table": {v: sorted(x) for v, x in table.items()}}, cap=30)
+            if ok:
+                chk.discharge(key)
     if len(tables) == 2:
         a, b = list(tables.values())
         key = "D:to_dyn-expansion:feature-independent"
